@@ -46,7 +46,7 @@ def putBe32 (n : Nat) : Bytes :=
   [UInt8.ofNat (n / 16777216 % 256), UInt8.ofNat (n / 65536 % 256), UInt8.ofNat (n / 256 % 256), UInt8.ofNat (n % 256)]
 
 /-- Go's `uint32(n)` of a non-negative `int` (64-bit): truncation modulo 2^32. Used where the code
-writes `uint32(a.buffer.Len())` and `uint32(len(data))`. -/
+writes `uint32(len(data))` (the emitter's prefix). -/
 def u32 (n : Nat) : Nat := n % 4294967296
 
 /-- Per-direction `adapter` fields that the data interpreter reads and writes.
@@ -101,9 +101,9 @@ Well-founded on `2·|buffer| + [state = readingMessageData]`: the Go loop termin
 def loop (cd : Codec) (es : Bool) (a : Adapter) : Res :=
   if a.reading then
     -- case readingMessageData
-    -- `if uint32(a.buffer.Len()) < a.length { return nil }`: the buffer length is truncated to 32 bits
-    -- before the comparison (a buffer of 2^32 + k bytes is compared as k bytes)
-    if u32 a.buf.length < a.length then ⟨[], some a⟩
+    -- `if uint64(a.buffer.Len()) < uint64(a.length) { return nil }`: both sides widened, no
+    -- truncation (fix ba75971; before it the buffer length was converted to uint32 and wrapped)
+    if a.buf.length < a.length then ⟨[], some a⟩
     else
       match decode cd a.enc a.compressed (a.buf.take a.length) with
       | none => ⟨[], none⟩
@@ -192,11 +192,6 @@ def GMsg.reenc (cd : Codec) (e : Enc) (m : GMsg) : GMsg :=
 /-- a new adapter of a gRPC stream whose header block selected encoding `e` -/
 def fresh (e : Enc) : Adapter := { enc := e }
 
-/-- Stream bytes received and not yet delivered as whole messages: the buffer, plus the 5-byte
-prefix of the message being read (already taken out of the buffer). The theorems hold while this
-stays below 2^32 + 5, i.e. while `uint32(a.buffer.Len())` is the buffer length at every comparison. -/
-def Adapter.pending (a : Adapter) : Nat := a.buf.length + (if a.reading then 5 else 0)
-
 /-- an adapter between messages with an empty buffer (in particular a new one) -/
 def Adapter.atRest (a : Adapter) : Prop := a.reading = false ∧ a.buf = []
 
@@ -209,12 +204,15 @@ def Adapter.afterDelivery (a : Adapter) (m : GMsg) (rest : Bytes) : Adapter :=
 abbrev Header := Bytes × Bytes
 
 /-! The literals come from the source on every check (`vextract` → `Generated/Grpc.lean`): the
-three string tests of adapter.Header in source order (name of the announcing header, its value,
-name of the encoding header; their shape is pinned by `facts_grpc_header_tests`) and the
-`grpc-encoding` value table of its `switch`. -/
+two header names adapter.Header compares for equality, in source order (`facts_grpc_header_tests`),
+the base media type and the separators of `isGRPCContentType` (`facts_grpc_content_type_test`) and
+the `grpc-encoding` value table of its `switch`. -/
 def ctName : Bytes := strBytes (Generated.Grpc.headerTests.getD 0 ("", "")).2
-def ctGrpc : Bytes := strBytes (Generated.Grpc.headerTests.getD 1 ("", "")).2
-def geName : Bytes := strBytes (Generated.Grpc.headerTests.getD 2 ("", "")).2
+def geName : Bytes := strBytes (Generated.Grpc.headerTests.getD 1 ("", "")).2
+/-- `const base = "application/grpc"` of `isGRPCContentType` -/
+def ctGrpc : Bytes := strBytes (Generated.Grpc.ctLiterals.getD 0 "")
+/-- the bytes that may follow it: `'+'` (subtype) and `';'` (parameter) -/
+def ctSeps : List UInt8 := Generated.Grpc.ctSeparators.filterMap fun c => (strBytes c).head?
 
 def encOfConst : String → Option Enc
   | "Identity" => some .identity
@@ -253,7 +251,13 @@ def scanEncoding : Enc → List Header → Enc × Bool
       | none => (e, false)
     else scanEncoding e hs
 
-def isGrpcHeaders (hs : List Header) : Bool := hs.any fun h => h.1 = ctName && h.2 = ctGrpc
+/-- `isGRPCContentType(v)`: `strings.HasPrefix(v, base)` and then
+`len(v) == len(base) || v[len(base)] == '+' || v[len(base)] == ';'` (fix 1b6fe6f; before it the
+value was compared for equality with `base`). -/
+def isGrpcCT (v : Bytes) : Bool :=
+  ctGrpc.isPrefixOf v && (v.length == ctGrpc.length || ctSeps.contains (v.getD ctGrpc.length 0))
+
+def isGrpcHeaders (hs : List Header) : Bool := hs.any fun h => h.1 = ctName && isGrpcCT h.2
 
 inductive Dir where
   | c2s | s2c
